@@ -39,6 +39,7 @@ type StrV struct {
 	Atom *Term       // symbolic atom (Int id); only ==, != and map key allowed
 	Fmt  *OpaqueFmt  // result of fmt.Sprintf with non-concrete args
 	Bytes []*Term    // symbolic byte vector of concrete length
+	Parts []StrPart  // structured string: literals and decimal renderings of integer terms (strparts.go)
 }
 
 type OpaqueFmt struct {
